@@ -19,7 +19,14 @@ def thorough_race(work, res):
 
 # the ConcurrentPriorityQueue theorem takes "the inner heap refines the priority-queue spec" as a hypothesis; C05 proves it
 # for the heap MODEL, so that model is re-validated against the real internal/queue.PriorityQueue here as well
-CHECK = generic("C06", [dict(harness="linz", area="linz"), dict(harness="heap", area="heap", name="heap-under-cpq")],
+# evtrace: every atomic load / CAS of real concurrent executions of the lock-free queue (event-logging twin of the scratch
+# copy, harness/evinst, with pointer identities) replayed step by step on the transition system the theorems are about
+EVTRACE = dict(harness="evtrace", area="evtrace", name="evtrace-clq", evinst=True, gen_args=["-targets", "clq"])
+# the same for the lock-wrapped containers (every Lock/RLock/Unlock/RUnlock with a snapshot of the protected data) on the generic
+# RWMutex model: ConcurrentList over ArrayList/LinkedList, CopyOnWriteArrayList, ConcurrentPriorityQueue over the C05 heap model
+EVTRACE_LW = dict(harness="evtrace", area="evtrace", name="evtrace-lockwrapped", evinst=True, gen_args=["-targets", "clist,cow,cpq"])
+
+CHECK = generic("C06", [dict(harness="linz", area="linz"), dict(harness="heap", area="heap", name="heap-under-cpq"), EVTRACE, EVTRACE_LW],
                 skel=SKEL, thorough_extra=thorough_race)
 
 MANIFEST = dict(
